@@ -19,7 +19,7 @@ VS_SPECS = [("i:1", 6), ("i:0", 6), ("i:-3", 1), ("s:yes", 1), ("s:", 1), ("arr"
 class C20(Prop):
     id = "C20"
     title = "uid/euid change only as the master allows; without euid no object creation"
-    lean_modules = ["NV.C20.Props", "NV.C20.Tie", "NV.C20.Negative"]
+    lean_modules = ["NV.C20.Props", "NV.C20.Tie", "NV.C20.Negative", "NV.C20.Consequences"]
     theorems = [
         "NV.C20.model_satisfies_spec",
         "NV.C20.euid_changes_only_by_own_approved_seteuid",
@@ -30,6 +30,9 @@ class C20(Prop):
         "NV.C20.seteuid_always_asks_master",
         "NV.C20.no_crash",
         "NV.C20.every_object_has_uid",
+        # consequences of the specification for EVERY accepted trace (model and real driver), and their model instances
+        "NV.C20.euid_names_granted", "NV.C20.euid_names_granted_from_start", "NV.C20.uid_names_decided",
+        "NV.C20.model_euid_names_granted", "NV.C20.model_uid_names_decided",
         # translator ties: the regenerated guards / statements equal what the model does
         "NV.C20.tie_load_guard", "NV.C20.tie_load_no_current", "NV.C20.tie_load_test_first",
         "NV.C20.tie_clone_entry", "NV.C20.tie_clone_retest", "NV.C20.tie_clone_order",
@@ -70,7 +73,9 @@ class C20(Prop):
                   "incl. the master and the simul_efun object (also from inside create() of objects under construction, also of "
                   "virtual objects made by master::compile_object, also with a master whose creator_file calls back into itself and "
                   "drops its euid mid-creation) and every master policy the specification oracle judgeEv (10 clauses: known, euid, "
-                  "uid, creation, noeuid, export, asked, bind, fp, vo) accepts the model's event trace (model_satisfies_spec); the "
+                  "uid, creation, noeuid, export, asked, bind, fp, vo) accepts the model's event trace (model_satisfies_spec); for EVERY "
+                  "accepted trace - model or real driver - every euid name was granted by the master and every uid name decided by it "
+                  "(euid_names_granted, uid_names_decided); the "
                   "model is tied to the source by 37 regenerated bridging lemmas: path conditions of the euid tests, decision trees "
                   "of give_uid_to_object / f_seteuid / f_export_uid / reload_object / set_master / f_bind / load_virtual_object "
                   "obtained by symbolic execution of their clang AST and proved equal to the model (tie_giveuid_semantics, tie_export_semantics, tie_seteuid_*_semantics: for every "
